@@ -179,7 +179,7 @@ class FakeConn:
         # a kill may land while the frame is half written
         c.partial[to] = True
         try:
-            s.point("conn.send:mid")
+            s.point("conn.send:mid", async_ok=False)
         except Killed:
             raise
         except BaseException:
